@@ -67,6 +67,8 @@ PROP = dict(
     ],
     mandatory_all=["g=2", "g=3", "g=8", "g=64", "P=1", "P=2", "P=3", "P=8", "P=16", "k=2", "k=5", "mode:same", "mode:pair", "mode:mix"],
     jobs=[
+        # lazily initialised Edwards parameters: every point method cold vs warm, one fresh process per method (shared with C02)
+        dict(name="coldstart-edwards", pkg="c02/uninit", run="^TestC02_ColdStart$", rapid=False),
         # -race suite (asm build): shared-object concurrency under the race detector
         dict(name="race", pkg="c18", run="^TestC18_Concurrent$", race=True, shards=_race_curve_shards, env=RACE_ENV,
              checks=(80, 1500), timeout=(1800, 5400), weight=9),
